@@ -35,6 +35,7 @@ func draw(t *rapid.T) *pbt.Case {
 	}
 	c := &pbt.Case{}
 	c.Spec = gen.Draw(t, gen.Regular(), rapid.IntRange(1, maxB).Draw(t, "budget"))
+	gen.SprinkleEmpty(t, c.Spec)
 	enc := errors.EncodeError(wire.Ctx, gen.Build(c.Spec))
 	fams := wire.Families(&enc)
 	// Known findings are excluded by construction: the families named
@@ -121,6 +122,24 @@ func checkMid(c *pbt.Case, r *pbt.R, sim string, e0 error, recv []byte, mid erro
 			sim, c.L["unknown"], fam, a, b, c.Spec, want.Str(true), got.Str(true))
 		return
 	}
+	// Type names and marks of every layer are the origin's (computed
+	// at the origin, not read back from the wire).
+	var recO func(o, n *obs.Node)
+	recO = func(o, n *obs.Node) {
+		so, sn := errors.GetSafeDetails(o.Err), errors.GetSafeDetails(n.Err)
+		if so.OriginalTypeName != sn.OriginalTypeName ||
+			so.ErrorTypeMark.FamilyName != strings.TrimSuffix(sn.ErrorTypeMark.FamilyName, wire.UnkSuffix) ||
+			so.ErrorTypeMark.Extension != sn.ErrorTypeMark.Extension {
+			r.Failf("a layer does not keep the origin's type name or type mark at an unknowing process",
+				"%s: origin %q %v, here %q %v (%T)\nspec %s", sim, so.OriginalTypeName, so.ErrorTypeMark, sn.OriginalTypeName, sn.ErrorTypeMark, n.Err, c.Spec)
+		}
+		for i := range o.Kids {
+			if i < len(n.Kids) {
+				recO(o.Kids[i], n.Kids[i])
+			}
+		}
+	}
+	recO(want, got)
 	// Type names, marks and safe details of every opaque layer.
 	var rec func(n *obs.Node, w *wnode)
 	rec = func(n *obs.Node, w *wnode) {
@@ -244,6 +263,6 @@ func check(c *pbt.Case, r *pbt.R) {
 }
 
 var prop = &pbt.Prop{ID: "C04", Part: "passthrough", Draw: draw, Check: check,
-	Valid: func(c *pbt.Case) bool { return gen.SpecRegular(c.Spec) }}
+	Valid: func(c *pbt.Case) bool { return gen.SpecRegularOrEmpty(c.Spec) }}
 
 func TestProp(t *testing.T) { pbt.Run(t, prop) }
